@@ -313,6 +313,8 @@ type reqState struct {
 	sync  func()          // called before every placeholder access of a handler
 	ctx   context.Context // the batch context the handlers were given (last invocation)
 	bad   string          // harness-level inconsistency (never expected)
+	// C15: a disagreement between IdPlaceholder and GetIdOrPlaceholder seen by a handler
+	accessor string
 }
 
 type connKey struct{}
@@ -402,16 +404,21 @@ func parseIdxSerial(s string) (int, int32) {
 }
 
 func (scriptHandler) HandleOperation(ctx context.Context, pl kmip.OperationPayload) (kmip.OperationPayload, error) {
-	var st *reqState
-	idx := -1
 	if ref, ok := lookupPayload(pl); ok {
-		st, idx = ref.st, ref.idx
-	} else {
-		var serial int32
-		idx, serial = payloadIndex(pl)
-		v, _ := reqRegistry.Load(serial)
-		st, _ = v.(*reqState)
+		return scriptRunSt(ctx, ref.st, ref.idx)
 	}
+	idx, serial := payloadIndex(pl)
+	return scriptRun(ctx, idx, serial)
+}
+
+// scriptRun plays the script of item idx of the request registered under serial.
+func scriptRun(ctx context.Context, idx int, serial int32) (kmip.OperationPayload, error) {
+	v, _ := reqRegistry.Load(serial)
+	st, _ := v.(*reqState)
+	return scriptRunSt(ctx, st, idx)
+}
+
+func scriptRunSt(ctx context.Context, st *reqState, idx int) (kmip.OperationPayload, error) {
 	if st == nil {
 		panic("harness: handler invoked with a payload of no known request")
 	}
@@ -430,9 +437,18 @@ func (scriptHandler) HandleOperation(ctx context.Context, pl kmip.OperationPaylo
 		}
 		switch a.kind {
 		case 'r':
-			v := phValue(kmipserver.IdPlaceholder(ctx))
+			raw := kmipserver.IdPlaceholder(ctx)
+			v := phValue(raw)
 			st.mu.Lock()
 			st.obs = append(st.obs, obsEv{idx, v})
+			// the accessor handlers actually use must agree with the one observed (C15 anchor
+			// GetIdOrPlaceholder): explicit id first, then this context's placeholder, else an error
+			if got, err := kmipserver.GetIdOrPlaceholder(ctx, ""); got != raw || (err != nil) != (raw == "") {
+				st.accessor = fmt.Sprintf("GetIdOrPlaceholder(ctx, \"\") = (%q, %v) while IdPlaceholder(ctx) = %q", got, err, raw)
+			}
+			if got, err := kmipserver.GetIdOrPlaceholder(ctx, "explicit-7"); got != "explicit-7" || err != nil {
+				st.accessor = fmt.Sprintf("GetIdOrPlaceholder(ctx, \"explicit-7\") = (%q, %v) with placeholder %q", got, err, raw)
+			}
 			st.mu.Unlock()
 		case 's':
 			kmipserver.SetIdPlaceholder(ctx, phString(a.v))
@@ -1070,12 +1086,17 @@ func runBatch(ctx *Ctx) {
 // soloPrediction: what the handlers of this request read when nothing else exists. An independent
 // straight-line restatement of the property (not the Lean model): the placeholder starts empty, a
 // Set/Clear is seen by what follows in the same request, a failed item leaves it empty.
-func soloPrediction(r *bReq) []obsEv {
+func soloPrediction(r *bReq) []obsEv { return soloFrom(r, 0, true) }
+
+// soloFrom: the same starting from placeholder value `start`; clearOnFail = the library clears the
+// placeholder when an item fails (handleBatchItemError, an anchored mechanism of C15; the property
+// text itself does not demand it, so a deviation confined to it gets a key of its own).
+func soloFrom(r *bReq, start int, clearOnFail bool) []obsEv {
 	var obs []obsEv
 	if !r.accepted() {
 		return obs
 	}
-	cur := 0
+	cur := start
 	for i := range r.items {
 		it := &r.items[i]
 		if r.reachesHandler(it) {
@@ -1091,13 +1112,43 @@ func soloPrediction(r *bReq) []obsEv {
 			}
 		}
 		if r.itemFails(it) {
-			cur = 0
+			if clearOnFail {
+				cur = 0
+			}
 			if r.opt == uint32(kmip.BatchErrorContinuationOptionStop) {
 				break
 			}
 		}
 	}
 	return obs
+}
+
+// soloEnd: the placeholder value a run of r leaves behind when it starts from `start`.
+func soloEnd(r *bReq, start int) int {
+	if !r.accepted() {
+		return 0 // handleMessageError clears
+	}
+	cur := start
+	for i := range r.items {
+		it := &r.items[i]
+		if r.reachesHandler(it) {
+			for _, a := range it.acts {
+				switch a.kind {
+				case 's':
+					cur = a.v
+				case 'c':
+					cur = 0
+				}
+			}
+		}
+		if r.itemFails(it) {
+			cur = 0
+			if r.opt == uint32(kmip.BatchErrorContinuationOptionStop) {
+				break
+			}
+		}
+	}
+	return cur
 }
 
 // scheduledSteps: how many times request r passes a synchronisation point (one for the creation of
@@ -1120,9 +1171,10 @@ func scheduledSteps(r *bReq) int {
 }
 
 type placeResult struct {
-	obs   []obsEv
-	panic string
-	bad   string
+	obs      []obsEv
+	panic    string
+	bad      string
+	accessor string
 }
 
 // runScenario runs the requests in the given mode and returns what each observed.
@@ -1146,7 +1198,7 @@ func runScenario(mode string, reqs []*bReq) []placeResult {
 		return conns[c]
 	}
 	finish := func(i int, st *reqState, p string) {
-		res[i] = placeResult{obs: st.obs, panic: p, bad: st.bad}
+		res[i] = placeResult{obs: st.obs, panic: p, bad: st.bad, accessor: st.accessor}
 	}
 	switch {
 	case mode == "seq":
@@ -1246,6 +1298,9 @@ func placeCase(ctx *Ctx, mode string, reqs []*bReq, origin string) {
 		if res[i].bad != "" {
 			ctx.Res.Fail(res[i].bad + ": " + line)
 		}
+		if res[i].accessor != "" {
+			ctx.Res.Violate(report.Violation{Property: "C15", Oracle: "accessor-agrees", Key: "place:accessor-disagrees", Detail: fmt.Sprintf("request %d (mode %s): %s", i, mode, res[i].accessor), Line: line})
+		}
 		if res[i].panic != "" {
 			ctx.Res.Violate(report.Violation{Property: "C15", Oracle: "no-panic", Key: "place:panic " + panicKey(res[i].panic), Detail: "HandleRequest panicked: " + res[i].panic, Line: line})
 			parts[i] = "panic"
@@ -1276,6 +1331,10 @@ func placeCase(ctx *Ctx, mode string, reqs []*bReq, origin string) {
 			}
 			if len(got) > 0 && len(want) > 0 && got[0].val != 0 && want[0].val == 0 {
 				key = "place:not-empty-at-start"
+			}
+			if renderObs(got) == renderObs(soloFrom(r, 0, false)) {
+				// scoping intact, only the clearing after a failed item differs
+				key = "place:not-cleared-after-failed-item"
 			}
 			ctx.Res.Violate(report.Violation{Property: "C15", Oracle: "solo-equivalence", Key: key,
 				Detail: fmt.Sprintf("request %d (mode %s) observed %s, alone it observes %s", i, mode, renderObs(got), renderObs(want)), Line: line})
